@@ -68,6 +68,17 @@ def gen_case(r, cid, tier):
     if r.random() < 0.35:
         trans = gl.rand_transform(r, spec)
         lines.append(gl.trans_cmd(trans))
+    if r.random() < 0.3:
+        # the declared space and the weights of a grid that was loaded and then UPDATED to other tensors (all rules, also the non-nested
+        # Gauss families with alpha/beta: the one-dimensional rule cache is rebuilt by the update)
+        uty = r.choice(gl.DEPTH_TYPES[:9])
+        udepth = r.randint(1, 3) if ("tensor" in uty or uty in ("level", "curved", "hyperbolic")) else r.randint(2, 6 if d <= 2 else 4)
+        if fam == "fourier":
+            udepth = min(udepth, 2) if ("tensor" in uty or uty in ("level", "curved", "hyperbolic")) else udepth
+        if fam == "global" and spec["rule"] == "gauss-patterson":
+            udepth = min(udepth, 3)
+        lines += ["load g poly", "update g %d %s%s" % (udepth, uty, gl.kv("ll:", spec["ll"])), "load g poly"]
+        spec["updated"] = True
     lines += ["dump g meta allpoints qw" + ("" if fam == "fourier" else " polyq"), "load g poly", "dump g values", "integ g"]
     spec["trans"] = trans
     return spec, lines
